@@ -25,6 +25,9 @@ SAME_SOURCE = {
     'type_blocks.TypeBlocks._fillna_directional_axis_0': 'values copied within one block: "type is already compatible" (directional fill reads the same block)',
     'series.Series._fillna_directional': 'directional fill within one array',
     'bus.Bus._update_series_cache_iloc': 'object array of Frames / placeholders',
+    'index_base.IndexBase.loc_searchsorted': 'copy of the positions returned by iloc_searchsorted (np.searchsorted -> intp); the stored literal 0 is a position',
+    'index_hierarchy.IndexHierarchy.loc_searchsorted': 'copy of the positions returned by iloc_searchsorted (intp); the stored literal 0 is a position',
+    'series.Series.loc_searchsorted': 'copy of the positions returned by iloc_searchsorted (intp); the stored literal 0 is a position',
     'container_util.pandas_to_numpy': 'object array (asserted) receiving the fill value',
     'index_level.IndexLevel.values': 'row template of the resolved dtype copied per branch',
     'index_level.IndexLevel.__iter__': 'list copy, not an array',
